@@ -63,7 +63,12 @@ const preludeDecls = `(set-logic ALL)
 (declare-fun typefp (Int) Int)
 (declare-fun xorfold ((Array Int Bool)) Int)
 (declare-const hinit Int)
-(declare-fun qvals (Int) Int)
+(declare-fun parseq (Int) Int)
+(declare-fun qenc (Int) Int)
+(declare-fun rawq (Int) Int)
+(declare-fun qset (Int Int Int) Int)
+(declare-fun qadd (Int Int Int) Int)
+(declare-fun qhas (Int Int) Bool)
 (declare-fun qget (Int Int) Int)
 (declare-fun bvand64 (Int Int) Int)
 (declare-fun bvor64 (Int Int) Int)
@@ -91,6 +96,9 @@ func (e *Engine) axioms() []axiom {
 		{"(xorfold ", `(assert (= (xorfold ((as const (Array Int Bool)) false)) 0))`},
 		{"(xorfold ", `(assert (forall ((d (Array Int Bool)) (k Int)) (! (=> (not (select d k)) (= (xorfold (store d k true)) (bvxor64 (xorfold d) (typefp k)))) :pattern ((xorfold (store d k true))))))`},
 		{"(xorfold ", `(assert (forall ((k Int)) (! (= (typefp k) (hsum (rth (hw hinit (strcat (rt_pkgpath (pair_snd k)) (rt_string (pair_snd k)))) (pair_snd k)))) :pattern ((typefp k)))))`},
+		{"(qset ", `(assert (forall ((q Int) (k Int) (v Int) (j Int)) (! (and (= (qget (qset q k v) j) (ite (= j k) v (qget q j))) (= (qhas (qset q k v) j) (or (= j k) (qhas q j)))) :pattern ((qget (qset q k v) j)) :pattern ((qhas (qset q k v) j)))))`},
+		{"(qadd ", `(assert (forall ((q Int) (k Int) (v Int) (j Int)) (! (and (= (qget (qadd q k v) j) (ite (and (= j k) (not (qhas q k))) v (qget q j))) (= (qhas (qadd q k v) j) (or (= j k) (qhas q j)))) :pattern ((qget (qadd q k v) j)) :pattern ((qhas (qadd q k v) j)))))`},
+		{"(qenc ", `(assert (forall ((q Int) (j Int)) (! (and (= (qget (parseq (qenc q)) j) (qget q j)) (= (qhas (parseq (qenc q)) j) (qhas q j))) :pattern ((qget (parseq (qenc q)) j)) :pattern ((qhas (parseq (qenc q)) j)))))`},
 		{"(boxreal ", `(assert (forall ((x Real)) (! (= (unboxreal (boxreal x)) x) :pattern ((boxreal x)))))`},
 		{"(strlen ", `(assert (forall ((s Int)) (! (>= (strlen s) 0) :pattern ((strlen s)))))`},
 		{"(strlen ", `(assert (= (strlen 0) 0))`},
